@@ -61,7 +61,8 @@ def configs(prop, tier, rng):
     if not q or prop in ("C03", "C04"):
         out.append(("n3.evaluator", c3, 3, 1, [0, 2], 1))
     # every index takes the corrupted role once for n = 3 (checks that loop over "the other parties" are easily asymmetric)
-    if not q or prop in ("C03", "C04"):
+    # (C02 quick: online family only, see run_campaign -- a garbler that is NOT the highest-indexed one lies about its share)
+    if not q or prop in ("C03", "C04", "C02"):
         out.append(("n3.first", c3, 3, 2, [1, 2], 0))
     if prop == "C02" or not q:
         # the highest index as corrupted evaluator, both garblers output parties, an output that depends on the evaluator's
@@ -100,7 +101,10 @@ def run_campaign(prop, tier, v, wd, rng, fams=None, sample=None):
     jobs = []
     nscen = 0
     for (name, circ, n, pe, po, c) in configs(prop, tier, rng):
-        for fam in (fams or FAM_OF[prop]):
+        fl = fams or FAM_OF[prop]
+        if prop == "C02" and tier == "quick" and name == "n3.first":
+            fl = [f for f in fl if f == "online"]
+        for fam in fl:
             scs = scenarios(wd, f"{name}.{fam}", circ, n, pe, po, c, fam)
             scs.sort(key=lambda s: json.dumps(s, sort_keys=True))
             nscen += len(scs)
